@@ -758,9 +758,11 @@ def to_update_call(tokens):
 def to_query(tokens):
     output = tokens["query"][0]
     try:
-        output["with"] = tokens["with"]
-        output["with_recursive"] = tokens["with_recursive"]
-        output["using"] = tokens["using"]
+        # A PARENTHESISED QUERY ARRIVES HERE WITH ITS OWN WITH CLAUSE ALREADY ATTACHED: DO NOT OVERWRITE IT WITH NOTHING
+        for key in ("with", "with_recursive", "using"):
+            value = tokens[key]
+            if value or key not in output:
+                output[key] = value
 
         return output
     except Exception as cause:
